@@ -81,6 +81,7 @@ func (s *gRPCBrokerServer) StartStream(stream plugin.GRPCBroker_StartStreamServe
 			case <-s.quit:
 				return
 			case se := <-s.send:
+				verifhook.Point("grpc.stream.send", s, int64(se.i.ServiceId), 0)
 				err := stream.Send(se.i)
 				se.ch <- err
 			}
@@ -192,6 +193,7 @@ func (s *gRPCBrokerClientImpl) StartStream() error {
 			case <-s.quit:
 				return
 			case se := <-s.send:
+				verifhook.Point("grpc.stream.send", s, int64(se.i.ServiceId), 0)
 				err := stream.Send(se.i)
 				se.ch <- err
 			}
